@@ -80,7 +80,7 @@ def unassigned(b: bytes) -> bool:
 def obligations(tier):
     from harness import kernels
     T = 120 if tier == "quick" else 900
-    out = [kernels.K3(tier)] + c04.step_obligations(tier, True, "inv")
+    out = [kernels.K3(tier)] + c04.step_obligations(tier, True, "inv") + c04.extra_obligations(tier, True, "inv")
     for fc in (1, 2, 3, 4, 5, 6, 15, 16, 22, 23):
         shape = c04.SHAPES.get(fc, [None])[0]
         out.append(Obl("limits.fc%d" % fc, make_limits(fc, shape), timeout=T,
